@@ -30,7 +30,7 @@ RULE = (
     "dedup on/off, learners linear / svc / an order-sensitive online learner / a predict_proba-only k-NN): baseline vs variants {each of the six chunk-size constants in "
     "{1,2,3,7,n-1,n,n+1,ceil(n/2), sizes leaving a 1-row last chunk}, workers {2,3,4,8,16} with seeded delays inside every joblib task function (vf.instruments.scheduler) and inside fit/score, "
     "Parquet row groups {1,3,prime,n,default}, pairs of constants, and Parquet or several workers combined with a chunk size}; env class: the same comparison with MOKAPOT_* variables in fresh "
-    "interpreters. Non-trivial = a variant whose chunk size is smaller than the table, or >1 worker with >=2 "
+    "interpreters; schedule class: tie-heavy scores, identical chunk sizes, 1 worker vs 2..8 workers under perturbed task schedules, result files compared byte for byte. Non-trivial = a variant whose chunk size is smaller than the table, or >1 worker with >=2 "
     "threads observed, or Parquet input; distinct = (table seed, variant)."
 )
 ASSUMPTIONS = [
@@ -45,6 +45,7 @@ CONSTS = list(core.CHUNK_CONSTANTS)
 def plan(seed, tier):
     n = 24 if tier == "quick" else 300
     cases = [{"class": "inproc", "index": i, "nvar": 10 if tier == "quick" else 14, "cost": 12} for i in range(n)]
+    cases += [{"class": "schedule", "index": i, "cost": 8} for i in range(8 if tier == "quick" else 120)]
     if tier == "thorough":
         cases += [{"class": "env", "index": i, "nvar": 4, "cost": 40} for i in range(24)]
     else:
@@ -52,7 +53,7 @@ def plan(seed, tier):
     return cases
 
 
-MANDATORY_CLASSES = ["inproc", "env"]
+MANDATORY_CLASSES = ["inproc", "env", "schedule"]
 
 
 def read_files(dest):
@@ -222,6 +223,7 @@ def run_inproc(case):
                 # several tasks per Parallel call are needed for the schedule to matter
                 spec["chunk_sizes"].setdefault("CHUNK_SIZE_READ_ALL_DATA", max(2, n // 7))
                 spec["chunk_sizes"].setdefault("CONFIDENCE_CHUNK_SIZE", max(2, n // 5))
+                spec["chunk_sizes"].setdefault("CHUNK_SIZE_ROWS_PREDICTION", max(5, n // 6))
             else:
                 pq = psm.write_parquet(tab, d / f"t{vi}.parquet", row_group_size=v["row_group"])
                 spec["paths"] = [str(pq)]
@@ -317,5 +319,58 @@ def run_env(case):
     return res
 
 
+def run_schedule(case):
+    """Same chunk sizes, one worker vs several workers under perturbed schedules, on *tie-heavy* scores: here even the
+    choice among tied PSMs must not depend on which worker thread finishes first, so result files are compared byte for
+    byte (ties across chunk *sizes* may legitimately resolve differently, ties across *schedules* may not)."""
+    import hashlib
+    from vf.instruments import pipeline, scheduler
+
+    rng = core.seed_seq(case["seed"], "C05", "schedule", case["index"])
+    res = Result(case)
+    with core.scratch("c05s") as d:
+        tab = psm.psm_table(rng, n_spectra=int(rng.integers(100, 250)), mult_max=3, key_cols=("ExpMass",), with_rid=False)
+        n = len(tab["df"])
+        path = psm.write_pin(tab, d / "t.pin") if case["index"] % 2 else psm.write_parquet(tab, d / "t.parquet", row_group_size=41)
+        scores = np.round(tab["df"]["info0"].values.astype(float) * 2) / 2  # coarse: many exact ties across chunks
+        chunk = int(rng.choice([max(2, n // 9), max(2, n // 4), 13]))
+
+        def run(dest, workers, seed):
+            ds = pipeline.read_datasets([path], max_workers=workers)
+            with core.chunk_sizes(CONFIDENCE_CHUNK_SIZE=chunk, MERGE_SORT_CHUNK_SIZE=int(rng.choice([3, 50, 10**5]))):
+                if workers > 1:
+                    with scheduler.perturb(seed) as tr:
+                        c = pipeline.run_confidence(ds, [scores.copy()], dest, decoys=True, rng=3, max_workers=workers,
+                                                    peps_algorithm="kde_nnls", deduplication=bool(case["index"] % 3))
+                    res.count("task_kinds_finished_out_of_order", tr.out_of_order())
+                    res.count("threads_seen", tr.threads())
+                else:
+                    c = pipeline.run_confidence(ds, [scores.copy()], dest, decoys=True, rng=3, max_workers=1,
+                                                peps_algorithm="kde_nnls", deduplication=bool(case["index"] % 3))
+            return c
+        c0 = run(d / "w1", 1, 0)
+        res.count("assign_confidence_calls")
+        if not c0.ok:
+            res["status"] = "refused"
+            res["note"] = c0.sig
+            return res
+        ref = {p.name: hashlib.sha256(p.read_bytes()).hexdigest() for p in sorted((d / "w1").iterdir()) if p.is_file()}
+        for k in range(4):
+            w = int(rng.choice([2, 3, 4, 8]))
+            c = run(d / f"w{k + 2}", w, int(rng.integers(1 << 30)))
+            res.count("assign_confidence_calls")
+            if not c.ok:
+                res.violate("run_fails_in_one_configuration", "schedule", workers=w, sig=c.sig, msg=c.info["msg"], rows=n, chunk=chunk)
+                continue
+            got = {p.name: hashlib.sha256(p.read_bytes()).hexdigest() for p in sorted((d / f"w{k + 2}").iterdir()) if p.is_file()}
+            if got != ref:
+                res.violate("result_depends_on_thread_schedule", "tied_scores", workers=w, rows=n, chunk=chunk,
+                            files=sorted(f for f in set(ref) | set(got) if ref.get(f) != got.get(f)))
+        res["evals"] = 5
+        res["nontrivial"] = True
+        res["sample"] = {"rows": n, "chunk": chunk, "distinct_scores": int(len(np.unique(scores)))}
+    return res
+
+
 def run_case(case):
-    return {"inproc": run_inproc, "env": run_env}[case["class"]](case)
+    return {"inproc": run_inproc, "env": run_env, "schedule": run_schedule}[case["class"]](case)
